@@ -31,6 +31,8 @@ func (d Decision) String() string {
 		return fmt.Sprintf("c%d%s", d.V, f)
 	case 'o':
 		return "o"
+	case 'q':
+		return "q"
 	default:
 		return fmt.Sprintf("s%d%s", d.V, f)
 	}
@@ -359,6 +361,62 @@ func (p *Path) Concretize(t *Term, what string) uint64 {
 	p.record(Decision{K: 'c', V: v})
 	p.addPC(eq)
 	return v
+}
+
+// FewValues decides (and records, so that replays agree) whether t has at most k
+// feasible values under the path condition.
+func (p *Path) FewValues(t *Term, k int) bool {
+	if t.IsConst() {
+		return true
+	}
+	if p.replaying() {
+		d := p.prefix[p.pos]
+		if d.K != 'q' {
+			panic(inconclusive{fmt.Sprintf("replay divergence: expected few-values record at %d, have %v", p.pos, d)})
+		}
+		p.record(d)
+		return d.B
+	}
+	p.flush()
+	p.solver.Send("(push 1)")
+	ts := p.pr.Print(t)
+	n := 0
+	few := true
+	for {
+		r := p.solver.Check()
+		if r == Unknown {
+			p.solver.Send("(pop 1)")
+			panic(inconclusive{"solver unknown while counting values"})
+		}
+		if r == Unsat {
+			break
+		}
+		n++
+		if n > k {
+			few = false
+			break
+		}
+		p.solver.Send("(get-value (" + ts + "))")
+		resp := strings.TrimSpace(p.solver.readSexp())
+		i := strings.LastIndexAny(resp, "#")
+		if i < 0 {
+			p.solver.Send("(pop 1)")
+			panic(inconclusive{"cannot parse value while counting: " + resp})
+		}
+		j := i
+		for j < len(resp) && resp[j] != ')' && resp[j] != ' ' {
+			j++
+		}
+		v, ok := parseValue(resp[i:j])
+		if !ok {
+			p.solver.Send("(pop 1)")
+			panic(inconclusive{"cannot parse value while counting: " + resp})
+		}
+		p.solver.Send(fmt.Sprintf("(assert (not (= %s (_ bv%d %d))))", ts, v, t.W))
+	}
+	p.solver.Send("(pop 1)")
+	p.record(Decision{K: 'q', B: few, Forced: true})
+	return few
 }
 
 // Choose is a non-data decision among n alternatives (scheduler).
